@@ -30,6 +30,7 @@ values > 255 and the malformed SGR forms D1–D4 listed in notes/C06.md (termina
 -/
 import VaxisModel.Lemmas.EmuRefineStep
 import VaxisModel.Lemmas.EmuRefineAll
+import VaxisModel.Lemmas.EmuRefineExt
 import VaxisModel.Props.C05
 
 namespace VaxisModel.Props.C06
@@ -136,5 +137,62 @@ example : VocabHistAll [.csi [109] [(1, []), (38, []), (5, []), (9, [])], .print
   refine .cons ⟨by decide, (by intro ps h; cases h; exact ⟨by decide, _, rfl, by decide⟩), (by intro g w h; cases h)⟩ ?_
   refine .cons ⟨by decide, (by intro ps h; cases h), (by intro g w h; cases h; decide)⟩ ?_
   exact .cons ⟨by decide, (by intro ps h; cases h; exact ⟨by decide, _, rfl, by decide⟩), (by intro g w h; cases h)⟩ .nil
+
+/-! ### round 2: long parameter lists, cursor visibility and shape (`tokOfX`) -/
+
+/-- **One-parameter functions with any number of parameters.** `CSI p1 ; p2 ; … F` for the functions
+    that take one numeric parameter (ICH, CUU, CUD, CUF, CUB, CNL, CPL, CHA, HPA, VPA, ED, EL, IL, DL,
+    DCH, SU, SD — except the 5-parameter `CSI … T` —, ECH), whatever follows the first parameter
+    (further parameters, with or without sub-parameters): the emulator step succeeds and refines the
+    reference's function of the first parameter, for every related pair of states. -/
+theorem emu_refines_term_long {t : Term.T} {e : Emu} {rows cols : Nat} (f : Nat) (pm : List Param) (tok : Term.Tok)
+    (hf : f ∈ onePs) (h84 : f = 84 → pm.length ≠ 5)
+    (h : tokOfX (.csi [f] pm) = some tok) (hns : ∀ ps, tok ≠ .sgr ps) (s2 : Sim2 t e rows cols) :
+    ∃ r, emuStep e (.csi [f] pm) = .ok r ∧ Refines2 (Term.step t tok) r.1 rows cols := by
+  have h' : tokOf (.csi [f] (firstOnly pm)) = some tok := by
+    unfold tokOfX at h
+    split at h
+    · rename_i heq; simp at heq
+    · rename_i heq; simp at heq
+    · rename_i heq; simp at heq
+    · rename_i f' pm' heq
+      simp only [EOp.csi.injEq, List.cons.injEq, and_true] at heq
+      obtain ⟨rfl, rfl⟩ := heq
+      rw [if_pos ⟨hf, h84⟩] at h
+      exact h
+    · rename_i hne; exact absurd rfl (hne f pm)
+  exact emu_refines_step_long _ tok
+    ⟨f, pm, rfl, hf, h84, h', fun ps hps => absurd hps (hns ps), fun g w hc => by cases hc⟩ s2
+
+/-- **Cursor visibility** (`CSI ? 25 h` / `CSI ? 25 l`): for states related by `SimC` (= `Sim2` and the
+    cursor's visibility and shape agree) the step succeeds, is what the reference's `showCursor` does,
+    and the relation is kept. -/
+theorem emu_cursor_visibility {t : Term.T} {e : Emu} {rows cols : Nat} (s : SimC t e rows cols) (b : Bool) :
+    ∃ r, emuStep e (.csi [63, if b then 104 else 108] [(25, [])]) = .ok r ∧
+      ∃ t', Term.step t (.showCursor b) = .accept [t'] ∧ SimC t' r.1 rows cols :=
+  showCursor_step s b
+
+/-- **Cursor shape** (DECSCUSR, `CSI n SP q`, n ≤ 65535). -/
+theorem emu_cursor_shape {t : Term.T} {e : Emu} {rows cols : Nat} (s : SimC t e rows cols) (n : Nat) (hn : n ≤ 65535) :
+    ∃ r, emuStep e (.csi [32, 113] [((n : Int), [])]) = .ok r ∧
+      ∃ t', Term.step t (.cursorShape n) = .accept [t'] ∧ SimC t' r.1 rows cols :=
+  cursorShape_step s n hn
+
+/-- `tokOfX` agrees with these statements: its tokens for the two cursor functions. -/
+example : tokOfX (.csi [63, 108] [(25, [])]) = some (.showCursor false) ∧
+    tokOfX (.csi [32, 113] [(4, [])]) = some (.cursorShape 4) := by decide
+
+/-- Non-vacuity: `CSI 2 ; 7 ; 9:1 A` is CUU 2, `CSI 3 ; 1 ; 1 T` is SD 3, a 5-parameter `CSI … T` is outside. -/
+example : tokOfX (.csi [65] [(2, []), (7, []), (9, [1])]) = some (.cuu 2) ∧
+    tokOfX (.csi [84] [(3, []), (1, []), (1, [])]) = some (.sd 3) ∧
+    tokOfX (.csi [84] [(3, []), (1, []), (1, []), (1, []), (1, [])]) = none := by decide
+
+/-- The fresh terminal is a `SimC` pair (cursor visible, default shape). -/
+example : ∃ t e, SimC t e 24 80 := by
+  obtain ⟨e0, he, _⟩ := VaxisModel.Props.C05.new_good 80 24 (by decide) (by decide) (by decide) (by decide)
+  have h0 : e0 = newState 80 24 := by
+    rw [new_eq 80 24 (by decide) (by decide)] at he; cases he; rfl
+  subst h0
+  exact ⟨_, _, fresh_related 80 24 (by decide) (by decide) (by decide) (by decide) he, rfl, rfl⟩
 
 end VaxisModel.Props.C06
